@@ -55,6 +55,10 @@ def compare(code, spec, amap, facts=()):
   """code: Poly, spec: Frac -> (ok, residual text)"""
   c = mod_strip(as_poly(code), M)
   am = dict(amap)
+  for a, fr_ in list(amap.items()):
+    sa = mod_strip(Poly.atom(a), M).as_atom()      # reductions inside the atom's own arguments are stripped from the code term as well
+    if sa is not None:
+      am.setdefault(sa, fr_)
   for a, D in inverse_atoms(c, M).items():
     am[a] = Frac(Poly.const(1), mod_strip(D, M))
   # apply equalities like self.a == -3 from the path
@@ -106,6 +110,12 @@ def batch_inverse_map(w, val):
     D = None
     if aa is not None and aa.kind == "map":
       D = sym.mk("idx", arg, j)
+      da = D.as_atom()
+      if da is not None and da.kind == "ite" and len(da.args) == 3:
+        # [den if finite else None for ..]: where an inverse exists, it is the inverse of the non-None branch
+        br = [x for x in da.args[1:] if not (isinstance(x, Poly) and repr(x) == "lit('None')")]
+        if len(br) == 1:
+          D = as_poly(br[0])
     elif aa is not None and aa.kind == "sym":
       # list filled by stores in an earlier loop
       for info in w.loop_info.values():
@@ -499,11 +509,40 @@ def rule_dispatch(ctx):
                     ("BatchAddSubtractX", ("points",))):
     f, w = walk(repo, name)
     probs = []
-    req = [e for e in w.events if e.kind == "store" and isinstance(e.data["target"].value, ast.Name) and e.data["target"].value.id == "tmp"
+    # the lists handed to BatchInverse: filled by element stores in an earlier loop (value = exit value of that loop) or built by a comprehension
+    binv_args = [as_poly(x.data["args"][0]) for x in w.events if x.kind == "call" and x.data["name"] == "meth:BatchInverse" and x.data["args"] and isinstance(x.data["args"][0], Poly)]
+    req_vars = set()
+    for info in w.loop_info.values():
+      for v_ in info.get("visits", []):
+        for var, after in v_.get("after_env", {}).items():
+          if isinstance(after, Poly) and any(after == a_ for a_ in binv_args):
+            req_vars.add(var)
+    req = [e for e in w.events if e.kind == "store" and isinstance(e.data["target"].value, ast.Name) and e.data["target"].value.id in req_vars
            and "BatchInverse" not in repr(as_poly(e.data["value"]) if not isinstance(e.data["value"], Seq) else "")]
     req = [e for e in req if not any(x.kind == "call" and x.data["name"] == "meth:BatchInverse" for x in [w.events[i] for i in e.state.trace])]
-    if not req:
+    comp_req = []
+    for a_ in binv_args:
+      aa_ = a_.as_atom()
+      if aa_ is not None and aa_.kind == "map" and len(aa_.args) == 3 and isinstance(aa_.args[0], Poly):
+        ea_ = aa_.args[0].as_atom()
+        if ea_ is not None and ea_.kind == "ite" and len(ea_.args) == 3 and ea_.args[0].as_atom() is not None:
+          comp_req.append((sym.ITE_CONDS.get(ea_.args[0].as_atom().args[0]), ea_, aa_))
+        else:
+          comp_req.append((None, ea_, aa_))
+    if not req and not comp_req:
       probs.append("no inverse is requested")
+    for cnd, ea_, aa_ in comp_req:
+      # [den if <all operands finite> else None for ..]: the condition must exclude the point at infinity for every operand
+      txt = repr(cnd)
+      bvp = Poly.atom(aa_.args[1]) if not isinstance(aa_.args[1], Poly) else aa_.args[1]
+      for o in ops:
+        el = sym.mk("idx", P("param", o), bvp)
+        ok_el = cnd is not None and any(c_[0] == "cmp" and c_[1] in ("NotEq", "Eq") and ((as_poly(c_[2]) == el and same(c_[3], INF)) or (as_poly(c_[3]) == el and same(c_[2], INF)))
+                                        for c_ in sym.cond_atoms(cnd) if not isinstance(c_[2], tuple))
+        if not ok_el:
+          probs.append("an inverse is requested although %s[i] may be the point at infinity" % o)
+      if name in ("BatchAdd", "BatchAddX", "BatchAddSubtractX") and not any(has_fact(x.facts, "cmp", "NotEq", P("param", "p"), INF) for x in w.events if x.kind == "call" and x.data["name"] == "meth:BatchInverse"):
+        probs.append("an inverse is requested although p may be the point at infinity")
     for e in req:
       k = as_poly(e.data["index"])
       for o in ops:
